@@ -1,5 +1,6 @@
 import Gql.Proofs.GapReplace
 import Gql.Proofs.BlockForced2
+import Gql.Proofs.C09Pairs
 import Gql.Text.Strip
 import Gql.Proofs.C09Misc
 /-!
@@ -7,7 +8,7 @@ import Gql.Proofs.C09Misc
 -/
 open Gql Gql.Text
 namespace Gql.Text
-open Gql.Spec.Lex
+open Gql.Spec.Lex Gql.Text.Pairs
 
 /-- `is_punctuator_token_kind` on the specification's kinds. -/
 def isPunctK : Kind → Bool
@@ -283,11 +284,11 @@ theorem blockString?_shape {u : List Nat} {m : Match} (h : blockString? u = some
   · exact ⟨_, rfl⟩
   · simp at h
 
-/-- A block string token of the grammar: its value is block-representable and made of code
-points of the text, `"` or LF. -/
+/-- A block string token of the grammar: its value is block-representable, made of code
+points of the text, `"` or LF, and consists of Unicode scalar values and surrogate pairs. -/
 theorem lexToken?_block_value {u : List Nat} {m : Match} (h : lexToken? u = some m)
     (hk : m.kind = .blockString) :
-    ∃ v, m.value = some v ∧ BlockRepresentable v ∧ ∀ c ∈ v, c ∈ u ∨ c = 34 ∨ c = 10 := by
+    ∃ v, m.value = some v ∧ BlockRepresentable v ∧ (∀ c ∈ v, c ∈ u ∨ c = 34 ∨ c = 10) ∧ Paired v := by
   cases u with
   | nil => rw [Gql.Spec.Lex.lexToken?_nil] at h; simp at h
   | cons c r =>
@@ -334,17 +335,17 @@ theorem lexToken?_block_value {u : List Nat} {m : Match} (h : lexToken? u = some
         have := congrArg SpecToken.value hsp
         simp only [toSpec] at this
         rw [← this]; exact hv
-      exact ⟨v, hval, hrep, hmem v hval⟩
+      exact ⟨v, hval, hrep, hmem v hval, blockString?_value_paired hb v hval⟩
     | err e => rw [hrd] at hag; exact absurd hag (by simp [TokAgree])
     | crash c => rw [hrd] at hag; exact hag.elim
 
-/-- The minimised printed form of a representable value of scalar values lexes, in front of any
-text, to one block string token with that value. -/
-theorem lexToken?_printed_block (v rest : List Nat) (hs : ∀ c ∈ v, isScalar c = true)
+/-- The minimised printed form of a representable value of scalar values and surrogate pairs
+lexes, in front of any text, to one block string token with that value. -/
+theorem lexToken?_printed_block (v rest : List Nat) (hs : Paired v)
     (hrep : BlockRepresentable v) :
     lexToken? (printBlockString v true ++ rest) =
       some ⟨.blockString, (printBlockString v true).length, some v⟩ := by
-  have hrt := printBlockStringW_roundtrip Generated.blockWidth v true rest {} hs hrep
+  have hrt := printBlockStringW_roundtrip_paired Generated.blockWidth v true rest {} hs hrep
   have hshape : ∃ X, printBlockString v true ++ rest = 34 :: 34 :: 34 :: X := by
     unfold printBlockString printBlockStringW
     refine ⟨pbsBefore (pbsFlags Generated.blockWidth v true) ++
@@ -391,7 +392,7 @@ theorem stripS_cons (body : List Nat) (t : SpecToken) (rest : List SpecToken) (w
   all_goals rfl
 
 /-- The text emitted for one token, and what it lexes to in front of a compatible continuation. -/
-theorem emitted_token (body : List Nat) (hs : ∀ c ∈ body, isScalar c = true) (off : Nat) (m : Match)
+theorem emitted_token (body : List Nat) (off : Nat) (m : Match)
     (hig : ignoredLen (body.drop off) = none) (hm : lexToken? (body.drop off) = some m) (hpos : 0 < m.len)
     (hlen : off + m.len ≤ body.length) (Y : List Nat)
     (hY : isPunctK m.kind = false → Inert Y) :
@@ -408,13 +409,7 @@ theorem emitted_token (body : List Nat) (hs : ∀ c ∈ body, isScalar c = true)
     rw [hu] at hig hm
     have hk := lexToken?_kind hm
     by_cases hb : m.kind = .blockString
-    · obtain ⟨v, hv, hrep, hmem⟩ := lexToken?_block_value hm hb
-      have hsv : ∀ d ∈ v, isScalar d = true := by
-        intro d hd
-        rcases hmem d hd with h1 | h1 | h1
-        · exact hs d (List.mem_of_mem_drop (by rw [hu]; exact h1))
-        · subst h1; rfl
-        · subst h1; rfl
+    · obtain ⟨v, hv, hrep, _, hsv⟩ := lexToken?_block_value hm hb
       have htext : text = printBlockString v true := by
         simp only [text, if_pos hb, hv]
       rw [htext]
@@ -458,7 +453,7 @@ def StripGoal (body : List Nat) (ss : List SpecToken) : Prop :=
   ∀ (w : Bool) (off' : Nat), ∃ ss', SpecTokensFrom off' (stripS body ss w) ss' ∧ kv ss' = kv ss ∧
     ∀ O : List Nat, O.drop off' = stripS body ss w → stripS O ss' w = stripS body ss w
 
-theorem strip_derivation (body : List Nat) (hs : ∀ c ∈ body, isScalar c = true)
+theorem strip_derivation (body : List Nat)
     {off : Nat} {u : List Nat} {ss : List SpecToken} (D : SpecTokensFrom off u ss) :
     u = body.drop off → (∀ t ∈ ss, t.stop ≤ body.length) → StripGoal body ss := by
   induction D with
@@ -485,7 +480,7 @@ theorem strip_derivation (body : List Nat) (hs : ∀ c ∈ body, isScalar c = tr
         Inert (stripS body ts np) := by
       intro np hnp hp
       rw [hnp, hp]; exact hinert
-    have hem := emitted_token body hs off m hig hm hpos hlen (stripS body ts (!isPunctK m.kind))
+    have hem := emitted_token body off m hig hm hpos hlen (stripS body ts (!isPunctK m.kind))
       (hY _ rfl)
     simp only [] at hem
     generalize htext : (if m.kind = Kind.blockString then
@@ -611,10 +606,10 @@ theorem sig_kind_ne_other (ts : List Token) (h : ∀ t ∈ sig ts, t.kind ≠ .o
   intro t ht
   exact h (toSpec t) (List.mem_map_of_mem ht)
 
-/-- Everything `strip_ignored_characters` guarantees about a text of Unicode scalar values that
-lexes: the stripped text lexes to the same kinds and values, and stripping it again returns it
-unchanged. -/
-theorem strip_correct (s : List Nat) (hs : ∀ c ∈ s, isScalar c = true) (ts : List Token)
+/-- Everything `strip_ignored_characters` guarantees about a text that lexes (verbatim surrogate
+pairs in strings, block strings and comments included): the stripped text lexes to the same kinds
+and values, and stripping it again returns it unchanged. -/
+theorem strip_correct (s : List Nat) (ts : List Token)
     (h : lexAll s = .ok ts) :
     ∃ out ts', stripIgnoredCharacters s = .ok out ∧ lexAll out = .ok ts' ∧
       kv (sig ts') = kv (sig ts) ∧ stripIgnoredCharacters out = .ok out := by
@@ -627,7 +622,7 @@ theorem strip_correct (s : List Nat) (hs : ∀ c ∈ s, isScalar c = true) (ts :
     intro t ht
     obtain ⟨t0, ht0, rfl⟩ := List.mem_map.mp ht
     exact hspans.stop_le t0 ht0
-  obtain ⟨_, hgoal⟩ := strip_derivation s hs hD (by simp) hb
+  obtain ⟨_, hgoal⟩ := strip_derivation s hD (by simp) hb
   obtain ⟨ss', hD', hkv, hO⟩ := hgoal false 0
   have hout : stripLoop s ts false [] = stripS s (sig ts) false := by
     rw [stripLoop_eq s ts (sig_kind_ne_other ts hko)]; simp
